@@ -23,6 +23,7 @@ import SgeProofs.Properties.C03Sums
 import SgeProofs.Properties.C04Sums
 import SgeProofs.Properties.C05NoHalt
 import SgeProofs.Properties.C16Reach
+import SgeProofs.Lemmas.CombinedPlainSim
 namespace Sge.Combined
 open Sge Sge.Core Sge.Genesis
 
@@ -322,5 +323,157 @@ theorem c16_core_invs_combined (p : Params) (bal : List (Nat × Int)) (h t : Nat
         (c.betCount == c.bets.length) = true ∧ (c.pending.length + c.settled.length == c.bets.length) = true))
     (fun cops _ => ⟨marketInv_reachable p bal h t cops, houseInv_reachable p bal h t cops,
       obInv_reachable p bal h t cops, betInv_partial p bal h t cops⟩)
+
+/-- C16 reach (combined), transfers `betInv_reachable` and `c16_core_restart_reachable` along the step-wise simulation
+    (`cml_run_trace`: the `newBlock`s of the core trace are those of the combined history): with positive block heights
+    the bet store of the core component satisfies the full `betInv`, and exporting the core component of ANY reachable
+    combined state and importing it into a fresh chain gives back exactly that core state. -/
+theorem betInv_reachable_combined (p : Params) (bal : List (Nat × Int)) (h t : Nat) (we de : Bool) (ops : List Op)
+    (hwf : ∀ op ∈ ops, op.wf) (hh : h ≠ 0) (hp : ∀ op ∈ ops, cml_posHeight op) :
+    let c := (run (init p bal h t we de) ops).core
+    betInv c = true ∧ importCore (exportCore c) (freshCore c) = some c := by
+  intro c
+  obtain ⟨cops, T⟩ := cml_run_trace ops (init p bal h t we de) (cmb_init_ownInv p bal h t we de) hwf
+  have hc : c = Core.run (initState p bal h t) cops := T.eq
+  clear_value c
+  subst hc
+  exact ⟨betInv_reachable p bal h t cops hh (T.pos hp), c16_core_restart_reachable p bal h t cops hh (T.pos hp)⟩
+
+-- ---------------------------------------------------------------------------------------------
+-- C05: no combined end-block halts, settlement completes within the bound
+
+/-- only an end-block can halt in the combined model -/
+theorem cml_step_not_halt (s : State) (op : Op) (hne : cml_isEnd op = false) : (step s op).2 ≠ .halt := by
+  have hcommit : ∀ r : Option State, (commit s r).2 ≠ .halt := by
+    intro r; cases r <;> exact fun e => nomatch e
+  cases op with
+  | core cop =>
+    have he : cop ≠ .endBlock := by intro e; subst e; cases hne
+    have e : step s (.core cop) = coreStep s cop := by
+      cases cop <;> first | rfl | exact absurd rfl he
+    rw [e]
+    exact step_msg_not_halt s.core cop he
+  | subParams w d => exact fun e => nomatch e
+  | create c o ls => exact hcommit _
+  | topUp c o ls => exact hcommit _
+  | withdrawUnlocked o => exact hcommit _
+  | subWager o ok ic m sb tk u a pl => exact hcommit _
+  | subDeposit o tk m a pd => exact hcommit _
+  | subWithdraw o tk m i md a pd => exact hcommit _
+
+theorem cml_cmbNoHalt_append : ∀ (a : List Op) (s : State) (b : List Op),
+    cml_noHalt s (a ++ b) = (cml_noHalt s a && cml_noHalt (run s a) b) := by
+  intro a
+  induction a with
+  | nil => intro s b; rfl
+  | cons op rest ih =>
+    intro s b
+    show ((step s op).2 != .halt && cml_noHalt (step s op).1 (rest ++ b)) = _
+    rw [ih]
+    show _ = (((step s op).2 != .halt && cml_noHalt (step s op).1 rest) && cml_noHalt (run (step s op).1 rest) b)
+    rw [Bool.and_assoc]
+
+/-- C05.q (combined), transfers `c05_no_halt_of_nonneg_parts` and combines it with
+    `c11_endBlock_halts_only_with_core`: from a chain without subaccounts (custody accounts empty, valid parameters, no
+    negative balance in the subaccount address range), after ANY combined history of key-holding signers (`Op.wfU`)
+    whose final core state has no backing part with a negative stake, the COMBINED end-block — bet settlement, order-book
+    settlement with all payments, and the x/subaccount hooks — does not halt. The only exclusion is the one of C02 / C05
+    on the core slice (KF-C03-negative-part); x/subaccount adds none. -/
+theorem c05_no_halt_of_nonneg_parts_combined (p : Params) (bal : List (Nat × Int)) (h t : Nat) (we de : Bool) (ops : List Op)
+    (h0 : getBal bal ACC_POOL = 0 ∧ getBal bal ACC_BETFEE = 0 ∧ getBal bal ACC_HOUSEFEE = 0) (hp : p.valid = true)
+    (hb : ∀ x, SUB_BASE ≤ x → 0 ≤ getBal bal x) (hwf : ∀ op ∈ ops, op.wfU) :
+    let s := run (init p bal h t we de) ops
+    NonNegParts s.core → (step s (.core .endBlock)).2 ≠ .halt := by
+  intro s hnn hh
+  have h1 : (Core.step s.core .endBlock).2 = .halt := c11_endBlock_halts_only_with_core p bal h t we de ops h0 hb hwf hh
+  have h2 : NonNegParts s.core → (Core.step s.core .endBlock).2 ≠ .halt :=
+    cml_transfer p bal h t we de ops (fun o ho => Op.wfU_wf (hwf o ho))
+      (fun c => NonNegParts c → (Core.step c .endBlock).2 ≠ .halt)
+      (fun cops hw => c05_no_halt_of_nonneg_parts p bal h t cops h0 hp hw)
+  exact h2 hnn h1
+
+/-- C05.p (combined), transfers `c05_no_halt_history_of_nonneg_parts`: under the same hypotheses NO end-block of the
+    combined history halts (`NonNegParts` is monotone along the history, `c02_nonneg_parts_monotone_combined`). -/
+theorem c05_no_halt_history_of_nonneg_parts_combined (p : Params) (bal : List (Nat × Int)) (h t : Nat) (we de : Bool)
+    (ops : List Op) (h0 : getBal bal ACC_POOL = 0 ∧ getBal bal ACC_BETFEE = 0 ∧ getBal bal ACC_HOUSEFEE = 0)
+    (hp : p.valid = true) (hb : ∀ x, SUB_BASE ≤ x → 0 ≤ getBal bal x) (hwf : ∀ op ∈ ops, op.wfU) :
+    NonNegParts (run (init p bal h t we de) ops).core → cml_noHalt (init p bal h t we de) ops = true := by
+  intro hnn
+  have key : ∀ (post pre : List Op), (∀ op ∈ pre ++ post, op.wfU) →
+      NonNegParts (run (init p bal h t we de) (pre ++ post)).core →
+      cml_noHalt (run (init p bal h t we de) pre) post = true := by
+    intro post
+    induction post with
+    | nil => intro _ _ _; rfl
+    | cons op rest ih =>
+      intro pre hwf hnn
+      have hstep : (step (run (init p bal h t we de) pre) op).2 ≠ .halt := by
+        by_cases hend : cml_isEnd op = true
+        · have e : op = .core .endBlock := by
+            cases op with
+            | core cop => cases cop <;> first | rfl | cases hend
+            | _ => cases hend
+          subst e
+          exact c05_no_halt_of_nonneg_parts_combined p bal h t we de pre h0 hp hb
+            (fun o ho => hwf o (List.mem_append_left _ ho))
+            (c02_nonneg_parts_monotone_combined p bal h t we de pre (.core .endBlock :: rest)
+              (fun o ho => Op.wfU_wf (hwf o ho)) hnn)
+        · exact cml_step_not_halt _ op (by simpa using hend)
+      have hassoc : pre ++ op :: rest = (pre ++ [op]) ++ rest := by simp
+      rw [hassoc] at hwf hnn
+      have c1 := ih (pre ++ [op]) hwf hnn
+      have hrun : run (init p bal h t we de) (pre ++ [op]) = (step (run (init p bal h t we de) pre) op).1 := by
+        rw [cml_run_append]; rfl
+      rw [hrun] at c1
+      simp only [cml_noHalt, Bool.and_eq_true, bne_iff_ne, ne_eq]
+      exact ⟨hstep, c1⟩
+  exact key ops [] (by simpa using hwf) (by simpa using hnn)
+
+/-- C05.h/j (combined), transfers THE BOUND `c05_settles_within` along the step-wise simulation `cml_run_trace` (a
+    successful combined end-block is the successful core end-block followed by the bank sends of the hooks; a halting
+    one is no core operation; every x/subaccount message is a list of bank sends, grants and at most one wager / house
+    deposit / house withdrawal). After any combined history `pre` and any continuation `ops` — direct and subaccount
+    wagers, deposits, withdrawals, resolutions of other markets, parameter changes keeping the batch sizes ≥ N, M —
+    containing at least ⌊W/N⌋ + ⌊P/M⌋ + 1 combined end-blocks THAT DO NOT HALT (`cml_okEnds`; halting ones are simply not
+    counted), every market that was queued after `pre` — the order-book queue and the first `k` entries of the market
+    queue — is completely settled. -/
+theorem c05_settles_within_combined (p : Params) (bal : List (Nat × Int)) (h t : Nat) (we de : Bool)
+    (h0 : getBal bal ACC_POOL = 0 ∧ getBal bal ACC_BETFEE = 0 ∧ getBal bal ACC_HOUSEFEE = 0)
+    (pre ops : List Op) (hpre : ∀ op ∈ pre, op.wf) (hops : ∀ op ∈ ops, op.wf) (k N M : Nat) (hN : 0 < N) (hM : 0 < M) :
+    let s := run (init p bal h t we de) pre
+    N ≤ s.core.params.betBatch → M ≤ s.core.params.obBatch → cml_batchAtLeast N M ops = true →
+    settleBound N M s.core k ≤ cml_okEnds s ops →
+    ∀ u ∈ s.core.obqueue ++ s.core.mqueue.take k, FullySettled (run (init p bal h t we de) (pre ++ ops)).core u := by
+  intro s hNb hMb hba hcnt
+  have hR : Reach s.core :=
+    cml_transfer p bal h t we de pre hpre Reach (fun cops hw => run_reach _ cops (reach_init p bal h t h0) hw)
+  have hI : OwnInv s := (cmb_run_sim pre _ (cmb_init_ownInv p bal h t we de) hpre).2
+  obtain ⟨cops, T⟩ := cml_run_trace ops s hI hops
+  rw [cml_run_append]
+  show ∀ u ∈ s.core.obqueue ++ s.core.mqueue.take k, FullySettled (run s ops).core u
+  rw [T.eq]
+  exact c05_settles_within s.core hR k N M hN hM hNb hMb cops (signedOk_of T.signed) T.noHalt (T.batch N M hba)
+    (by rw [T.ends]; exact hcnt)
+
+/-- C05.r (combined), transfers `c05_settles_within_of_nonneg_parts`: the two halves of C05 together for combined
+    histories without a negative backing part (key-holding signers): no combined end-block has halted, and after
+    ⌊W/N⌋ + ⌊P/M⌋ + 1 end-blocks of the continuation every market that was queued after `pre` is completely settled. -/
+theorem c05_settles_within_of_nonneg_parts_combined (p : Params) (bal : List (Nat × Int)) (h t : Nat) (we de : Bool)
+    (h0 : getBal bal ACC_POOL = 0 ∧ getBal bal ACC_BETFEE = 0 ∧ getBal bal ACC_HOUSEFEE = 0) (hp : p.valid = true)
+    (hb : ∀ x, SUB_BASE ≤ x → 0 ≤ getBal bal x)
+    (pre ops : List Op) (hwf : ∀ op ∈ pre ++ ops, op.wfU) (k N M : Nat) (hN : 0 < N) (hM : 0 < M) :
+    let s := run (init p bal h t we de) pre
+    NonNegParts (run (init p bal h t we de) (pre ++ ops)).core →
+    N ≤ s.core.params.betBatch → M ≤ s.core.params.obBatch → cml_batchAtLeast N M ops = true →
+    settleBound N M s.core k ≤ cml_endBlocks ops →
+    cml_noHalt (init p bal h t we de) (pre ++ ops) = true ∧
+    ∀ u ∈ s.core.obqueue ++ s.core.mqueue.take k, FullySettled (run (init p bal h t we de) (pre ++ ops)).core u := by
+  intro s hnn hNb hMb hba hcnt
+  have n := c05_no_halt_history_of_nonneg_parts_combined p bal h t we de (pre ++ ops) h0 hp hb hwf hnn
+  refine ⟨n, ?_⟩
+  rw [cml_cmbNoHalt_append, Bool.and_eq_true] at n
+  exact c05_settles_within_combined p bal h t we de h0 pre ops
+    (fun o ho => Op.wfU_wf (hwf o (List.mem_append_left _ ho))) (fun o ho => Op.wfU_wf (hwf o (List.mem_append_right _ ho)))
+    k N M hN hM hNb hMb hba (by rw [cml_okEnds_of_noHalt ops s n.2]; exact hcnt)
 
 end Sge.Combined
